@@ -34,6 +34,9 @@ _bg.randbits = _sim_randbits
 
 def reset_entropy():
     clear_library_caches()
+    _SCHED["default"] = random.Random("sched/default")
+    _SCHED["current"] = None
+    SimThreadPool.counter.update(pools=0, tasks=0, reordered=0)
     _ENTROPY["default"] = random.Random("entropy/default")
     _ENTROPY["current"] = None
     _ENTROPY["incarnations"] = 0
@@ -118,6 +121,124 @@ class salted_hash:
         _builtins.hash = self.saved
 
 
+# ---- thread-pool seam -----------------------------------------------------------------------------------------------------
+# If the library starts worker THREADS (concurrent.futures.ThreadPoolExecutor), their interleaving would be the OS's
+# decision and nothing would replay.  Under simulation the executor class is replaced: submitted tasks run one at a
+# time in an order drawn from the current simulated process's scheduling stream (task-level reordering - the
+# coarsest interleaving a pool can produce, and the one that matters for shared generators / shared output folders).
+# Results keep the semantics of the real class: map() yields in input order and raises a task's exception only when
+# that result is consumed; submit() returns a future whose result()/exception() report the outcome.
+import concurrent.futures as _cf
+import concurrent.futures.thread as _cft
+
+_SCHED = {"default": random.Random("sched/default"), "current": None}
+_REAL_TPE = _cf.ThreadPoolExecutor
+
+
+class _SimFuture:
+    def __init__(self, fn, args, kwargs):
+        self._call = (fn, args, kwargs)
+        self._done = False
+        self._result = None
+        self._exc = None
+
+    def _run(self):
+        if self._done:
+            return
+        fn, a, k = self._call
+        try:
+            self._result = fn(*a, **k)
+        except BaseException as e:  # noqa
+            self._exc = e
+        self._done = True
+
+    def result(self, timeout=None):
+        self._run()
+        if self._exc is not None:
+            raise self._exc
+        return self._result
+
+    def exception(self, timeout=None):
+        self._run()
+        return self._exc
+
+    def done(self):
+        return self._done
+
+    def cancel(self):
+        return False
+
+    def add_done_callback(self, fn):
+        self._run()
+        fn(self)
+
+
+class SimThreadPool:
+    counter = {"pools": 0, "tasks": 0, "reordered": 0}
+
+    def __init__(self, max_workers=None, *a, **kw):
+        self.max_workers = max_workers
+        self._pending = []
+        SimThreadPool.counter["pools"] += 1
+
+    def _rng(self):
+        return _SCHED["current"] or _SCHED["default"]
+
+    def submit(self, fn, *args, **kwargs):
+        f = _SimFuture(fn, args, kwargs)
+        self._pending.append(f)
+        SimThreadPool.counter["tasks"] += 1
+        return f
+
+    def _drain(self):
+        order = list(range(len(self._pending)))
+        if (self.max_workers or 2) > 1:
+            self._rng().shuffle(order)
+        if order != sorted(order):
+            SimThreadPool.counter["reordered"] += 1
+        pend, self._pending = self._pending, []
+        for i in order:
+            pend[i]._run()
+
+    def map(self, fn, *iterables, timeout=None, chunksize=1):
+        futs = [self.submit(fn, *args) for args in zip(*iterables)]
+        self._drain()  # like the real pool the work starts right away, whether or not anybody looks at the results
+
+        def results():
+            for f in futs:
+                yield f.result()
+
+        return results()
+
+    def shutdown(self, wait=True, cancel_futures=False):
+        self._drain()
+
+    def __enter__(self):
+        return self
+
+    def __exit__(self, *a):
+        self.shutdown()
+        return False
+
+
+def install_thread_pool_seam():
+    _cf.ThreadPoolExecutor = SimThreadPool
+    _cft.ThreadPoolExecutor = SimThreadPool
+
+
+install_thread_pool_seam()
+
+# ---- pid seam: every simulated process has its own os.getpid() ---------------------------------------------------------------
+import os as _os
+
+_REAL_GETPID = _os.getpid
+_PID = {"current": None}
+
+
+def _sim_getpid():
+    return _PID["current"] if _PID["current"] is not None else _REAL_GETPID()
+
+
 def save_amb():
     return (random.getstate(), np.random.get_state(), torch.get_rng_state())
 
@@ -155,6 +276,8 @@ class SimProcess:
         self.amb = amb_from_seed(amb_seed)
         _ENTROPY["incarnations"] += 1
         self.entropy = random.Random(f"entropy/{name}/{amb_seed}/{_ENTROPY['incarnations']}")
+        self.sched = random.Random(f"sched/{name}/{amb_seed}/{_ENTROPY['incarnations']}")
+        self.pid = 50000 + _ENTROPY["incarnations"]
         self.worker_info = worker_info
         self.objects = {}
         self._depth = 0
@@ -166,9 +289,13 @@ class SimProcess:
         outer = save_amb()
         outer_wi = tw._worker_info
         outer_entropy = _ENTROPY["current"]
+        outer_sched, outer_pid, outer_getpid = _SCHED["current"], _PID["current"], _os.getpid
         load_amb(self.amb)
         tw._worker_info = self.worker_info
         _ENTROPY["current"] = self.entropy
+        _SCHED["current"] = self.sched
+        _PID["current"] = self.pid
+        _os.getpid = _sim_getpid
         try:
             yield self
         finally:
@@ -176,6 +303,7 @@ class SimProcess:
             load_amb(outer)
             tw._worker_info = outer_wi
             _ENTROPY["current"] = outer_entropy
+            _SCHED["current"], _PID["current"], _os.getpid = outer_sched, outer_pid, outer_getpid
             self._depth = 0
 
     def clobber(self, which, seed):
